@@ -16,8 +16,8 @@ type Lin struct {
 	T map[string]int64
 }
 
-func K(c int64) Lin       { return Lin{C: c} }
-func Sym(s string) Lin    { return Lin{T: map[string]int64{s: 1}} }
+func K(c int64) Lin    { return Lin{C: c} }
+func Sym(s string) Lin { return Lin{T: map[string]int64{s: 1}} }
 func (a Lin) clone() Lin {
 	b := Lin{C: a.C, T: map[string]int64{}}
 	for k, v := range a.T {
